@@ -33,6 +33,10 @@ structure Sched where
   order : List Nat := []
   /-- events fired so far (newest first) -/
   log : List Event := []
+  /-- a `cfg` line was seen (driver bookkeeping only) -/
+  cfgd : Bool := false
+  /-- receivers the program has already consumed by `wait` / `rx` / `drop` (driver bookkeeping only) -/
+  taken : List Nat := []
 
 def Sched.fire (d : Sched) (e : Event) : Sched :=
   match step? d.s e with
